@@ -1038,16 +1038,28 @@ def run(index: RepoIndex, rep) -> None:
     om = ObjectModel(index)
 
     # ---------------------------------------------------------------- R1
-    tab = index.table(GYM, 'STRING_TO_YAML_FILE')
-    if not isinstance(tab, ast.Dict):
-        raise AnalysisError('STRING_TO_YAML_FILE is not a dict literal')
-    ids = {}
-    for k, v in zip(tab.keys, tab.values):
-        if not (isinstance(k, ast.Constant) and isinstance(v, ast.Constant)):
-            raise AnalysisError('STRING_TO_YAML_FILE has a non-literal entry')
-        ids[k.value] = v.value
+    from ..consteval import CannotFold, fold, module_constant
+    tab = module_constant(index.module(GYM), 'STRING_TO_YAML_FILE')
+    if tab is None:
+        raise AnalysisError('anchor vanished: gym.py STRING_TO_YAML_FILE (one assignment)')
+    try:
+        # a literal, or a table derived from other literal tables (constant folding)
+        ids = fold(index.module(GYM), tab)
+    except CannotFold as x:
+        raise AnalysisError(f'STRING_TO_YAML_FILE is not a foldable table of literals: {x}')
+    if not (isinstance(ids, dict) and all(isinstance(k, str) and isinstance(v, str)
+                                          for k, v in ids.items())):
+        raise AnalysisError('STRING_TO_YAML_FILE does not fold to a str -> str mapping')
     if len(ids) < 21:
         raise AnalysisError(f'STRING_TO_YAML_FILE has {len(ids)} entries, floor is 21')
+    by_file: Dict[str, list] = {}
+    for gid, fn in ids.items():
+        by_file.setdefault(fn, []).append(gid)
+    for fn, gids in sorted(by_file.items()):
+        rep.check(len(gids) == 1, 'C17.R1', GYM, 'STRING_TO_YAML_FILE', tab.lineno,
+                  f'{sorted(gids)} -> {fn}', f'the ids {sorted(gids)} point to the same file '
+                  f'{fn}: at most one of them builds the environment its name announces',
+                  f'{fn}: one id')
     for gid, fn in sorted(ids.items()):
         p1 = f'{PKG}/registered_envs/{fn}'
         p2 = f'yaml/{fn}'
